@@ -495,6 +495,9 @@ class String:
 
         level = md.level
         if level > 200:
+            if pushed:
+                # do not leave our defaults on the caller's namespace
+                md._pop(pushed)
             raise SystemError('infinite recursion in document template')
         md.level = level + 1
 
